@@ -43,6 +43,8 @@ func (o wop) String() string {
 		return fmt.Sprintf("A %d %d", o.id, o.ts)
 	case 'N':
 		return fmt.Sprintf("N %d", o.id)
+	case 'S':
+		return fmt.Sprintf("A %d %d T", o.id, o.ts)
 	case 'D':
 		var sb strings.Builder
 		if len(o.pre) > 0 {
@@ -83,7 +85,23 @@ func mkWinRow(o wop, keyed bool) map[string]any {
 	return m
 }
 
+// parkRow supplies its own timestamp through the public types.RowEvent hook and parks inside it, which puts the
+// producer exactly between "timestamp resolved" and "row inserted" (processing-time 'S' op).
+type parkRow struct {
+	id, ts          int64
+	entered, resume chan struct{}
+}
+
+func (r *parkRow) GetTimestamp() time.Time {
+	close(r.entered)
+	<-r.resume
+	return time.Unix(0, r.ts)
+}
+
 func rowID(r types.Row) int64 {
+	if p, ok := r.Data.(*parkRow); ok {
+		return p.id
+	}
 	if m, ok := r.Data.(map[string]any); ok {
 		if v, ok := m["id"].(int64); ok {
 			return v
@@ -209,6 +227,30 @@ func runWin(w stepWin, ops []wop, keyed bool) string {
 		case 'T':
 			sb.WriteString(" k")
 			w.Trigger()
+		case 'S': // Add whose timestamp is resolved, then the ticker fires before Add returns: Add and Trigger are
+			// atomic w.r.t. each other, so the only admissible outcomes are "a k" (Trigger waited) -- the model's
+			row := &parkRow{id: o.id, ts: o.ts, entered: make(chan struct{}), resume: make(chan struct{})}
+			addDone, trigDone := make(chan struct{}), make(chan struct{})
+			go func() { w.Add(row); close(addDone) }()
+			<-row.entered
+			mark := sb.Len()
+			go func() { w.Trigger(); close(trigDone) }()
+			overtook := false
+			select {
+			case <-trigDone:
+				overtook = true
+			case <-time.After(25 * time.Millisecond):
+			}
+			close(row.resume)
+			<-addDone
+			<-trigDone
+			all := sb.String()
+			sb.Reset()
+			if overtook {
+				sb.WriteString(all[:mark] + " k" + all[mark:] + fmt.Sprintf(" a %d %d", o.id, o.ts))
+			} else {
+				sb.WriteString(all[:mark] + fmt.Sprintf(" a %d %d k", o.id, o.ts) + all[mark:])
+			}
 		}
 		w.VerifDrain()
 	}
